@@ -64,7 +64,10 @@ func (f *Func) callGraph(args *argBuilder) (
 	// Next, we add "inputs", which are the given named values that
 	// we already know about. These are tracked as "vertexI".
 	var convs []*Func
-	vertexI, convs = args.graph(log, &g, vertexRoot)
+	vertexI, convs, err = args.graph(log, &g, vertexRoot)
+	if err != nil {
+		return
+	}
 
 	// Next, for all values we may have or produce, we need to create
 	// the vertices for the type-only value. This lets us say, for example,
